@@ -637,7 +637,8 @@ impl ObjectReceiver {
     }
 
     fn push_from_cache(&mut self, now: std::time::SystemTime) {
-        if self.nb_block() == 0 {
+        // Wait for the OTI and the transfer length (an empty object has no block)
+        if self.oti.is_none() || self.transfer_length.is_none() {
             return;
         }
 
